@@ -50,7 +50,10 @@ def render_item(it) -> str:
     if k == "sw":
         s = "{{#switch:" + render(it["v"])
         for c in it["cases"]:
-            s += "|" + text(c["key"]) + "=" + render(c["val"])
+            if len(c["val"]) == 1 and c["val"][0].get("k") == "ft":
+                s += "|" + text(c["key"])  # fall-through label
+            else:
+                s += "|" + text(c["key"]) + "=" + render(c["val"])
         if it["hasDflt"]:
             s += "|#default=" + render(it["dflt"])
         return s + "}}"
@@ -208,6 +211,10 @@ def rcontent(rng, depth, callable_names, in_body, budget, nolink=False):
         else:
             budget[0] -= 1
             cases = [{"key": rng.choice([["a"], ["SP", "b"], ["c", "SP"]]), "val": rcontent(rng, depth - 1, callable_names, in_body, budget)} for _ in range(rng.randint(1, 2))]
+            if rng.random() < 0.5:  # a fall-through group in front of a valued case
+                grp = [{"key": k, "val": [{"k": "ft"}]} for k in rng.sample([["a"], ["b"], ["e"]], rng.randint(1, 3))]
+                pos = rng.randint(0, len(cases) - 1)
+                cases = cases[:pos] + grp + cases[pos:]
             hd = rng.random() < 0.5
             c.append({"k": "sw", "v": rcontent(rng, depth - 1, callable_names, in_body, budget), "cases": cases,
                       "hasDflt": hd, "dflt": rcontent(rng, depth - 1, callable_names, in_body, budget) if hd else []})
